@@ -24,7 +24,13 @@ def generate(rng, idx, tier, variant):
         spec = S.gen_spec(rng, 'solver_faults', tier)
         spec.pop('mixins', None)
         pokes = []
+    np_err = rng.choice(['default'] * 6 + ['ignore', 'warn', 'raise', 'raise'])
+    spec['_allow_huge'] = np_err != 'raise'
     n, lags, leads = spec['span']['n'], spec['lags'], spec['leads']
+    dup = (not parser) and n >= 4 and rng.random() < 0.08
+    if dup:
+        spec['span']['type'] = 'list_dup_inner'
+        spec['lags'] = spec['leads'] = lags = leads = 0
     if idx % 97 == 0:
         # empty span
         spec['span']['n'] = n = 0
@@ -59,6 +65,9 @@ def generate(rng, idx, tier, variant):
             start, end = rng.choice([('?multi', None), (None, '?multi')])
         else:
             start = end = rng.randint(lo, max(lo, hi)) if hi >= lo else None
+        if dup and n:
+            start = rng.choice([None, 0])
+            end = rng.choice([None, n - 1])
         ps = lo if not isinstance(start, int) else start
         pe = hi if not isinstance(end, int) else end
         positions = list(range(ps, pe + 1)) if n else []
@@ -86,9 +95,13 @@ def generate(rng, idx, tier, variant):
             interrupt = {'seam': rng.randint(0, max(1, 3 * max(1, len(positions))))}
         elif r < 0.22:
             interrupt = {'line': rng.randint(1, 60 + 90 * max(1, len(positions)))}
+        if n and ops and rng.random() < 0.4:
+            # dirty data arriving between two solves (possibly in a period that is already solved)
+            nm_ = rng.choice(spec['names'] if spec['kind'] == 'parser' else (spec['endo'] + spec['exo']))
+            ops.append({'op': 'poke', 'name': nm_, 'pos': rng.randrange(n), 'v': rng.choice(['nan', 'inf', '-inf', 0.0, 1.0])})
         if n and rng.random() < 0.3:
             # history before the solve: every party is replaced by a reindexed version or by a copy of itself
-            if rng.random() < 0.7:
+            if rng.random() < 0.7 and not dup:
                 ops.append({'op': 'reindex', 'shift': rng.choice([-2, -1, 1, 2, 3]), 'grow': rng.choice([0, 0, 1, 2])})
             else:
                 ops.append({'op': 'copy', 'route': rng.choice(['copy', 'deepcopy'])})
@@ -112,7 +125,8 @@ def generate(rng, idx, tier, variant):
                 'interrupt': interrupt,
             }
         )
-    return {'spec': spec, 'pokes': pokes, 'ops': ops, 'np_err': rng.choice(['default'] * 6 + ['ignore', 'warn', 'raise', 'raise'])}
+    spec.pop('_allow_huge', None)
+    return {'spec': spec, 'pokes': pokes, 'ops': ops, 'np_err': np_err}
 
 
 shrink_lists = ['ops', 'pokes']
@@ -157,6 +171,7 @@ def _eq_label(a, b):
 def execute(schedule, ctx):
     fsic = import_fsic()
     spec = schedule['spec']
+    ctx.np_err = schedule.get('np_err', 'default')
     parties = {}
     for who in 'ABCR':
         try:
@@ -179,6 +194,13 @@ def execute(schedule, ctx):
     spec = dict(spec, span=dict(spec['span']))
     for step, op in enumerate(schedule['ops']):
         ctx.step = step
+        if op['op'] == 'poke':
+            for m in (A, B, C, R):
+                _apply_pokes(m, [op], n)
+            ctx.fault('preexisting-nonfinite' if isinstance(op['v'], str) else 'data-corruption')
+            ctx.log(step, 'poke')
+            ctx.outcome('poke', 'ok')
+            continue
         if op['op'] in ('reindex', 'copy'):
             import copy as _copy
 
@@ -208,7 +230,7 @@ def execute(schedule, ctx):
 
         # ---- A: the multi-period call (possibly interrupted)
         def call_A():
-            return A.solve(start=start_l, end=end_l, **opts)
+            return A.solve(start=start_l, end=end_l, **S.solver_kwargs(opts))
 
         lb = None
         if intr and 'seam' in intr:
@@ -265,21 +287,25 @@ def execute(schedule, ctx):
             ctx.probe('start==end')
 
         # ---- R: the loop run to completion of whatever it can (no interruption): crash-consistency reference
-        outR, flagsR, failR = _loop(R, positions, opts, None, 'solve_t', spec, span)
+        outR, flagsR, failR = _loop(R, positions, opts, None, 'solve_t', spec, span, judge=(ctx, endo, check, exo))
         # ---- B, C: the loops, with the same interruption budget where it is a seam budget
         outB, flagsB, failB = _loop(B, positions, opts, intr if intr and 'seam' in intr else None, 'solve_t', spec, span)
         outC, flagsC, failC = _loop(C, positions, opts, intr if intr and 'seam' in intr else None, 'solve_period', spec, span)
         postB, postC, postR = ref_solver.snapshot(B), ref_solver.snapshot(C), ref_solver.snapshot(R)
 
         line_intr = outA['kind'] == 'interrupt' and 'line' in intr
+        unique_labels = spec['span']['type'] != 'list_dup_inner'
+        if not unique_labels:
+            ctx.probe('repeated-label-inside-range')
         if not line_intr:
             # solve() == loop of solve_t == loop of solve_period, in effect and in result
             chk('twin/outcome-class', _cls(outA) == _cls(outB), {'solve': _cls(outA), 'loop': _cls(outB), 'opts': opts})
-            chk('twin/solve_period-outcome-class', _cls(outC) == _cls(outB), {'solve_period': _cls(outC), 'solve_t': _cls(outB), 'span': spec['span']['type']})
             dAB = ref_solver.diff_cells(postA, postB)
             chk('twin/effect-solve-vs-loop', not dAB, {'differs': dAB[:8], 'opts': opts, 'positions': positions})
-            dCB = ref_solver.diff_cells(postC, postB)
-            chk('twin/effect-solve_period-vs-solve_t', not dCB, {'differs': dCB[:8], 'span': spec['span']['type']})
+            if unique_labels:  # (a repeated label cannot be addressed by solve_period at all)
+                chk('twin/solve_period-outcome-class', _cls(outC) == _cls(outB), {'solve_period': _cls(outC), 'solve_t': _cls(outB), 'span': spec['span']['type']})
+                dCB = ref_solver.diff_cells(postC, postB)
+                chk('twin/effect-solve_period-vs-solve_t', not dCB, {'differs': dCB[:8], 'span': spec['span']['type']})
             la = [(r['hook'], r['tn'], r['k'], r['iteration']) for r in probes.get_ctl(A).log]
             lb_ = [(r['hook'], r['tn'], r['k'], r['iteration']) for r in probes.get_ctl(B).log]
             chk('twin/same-seam-history', la == lb_, {'solve': la[:12], 'loop': lb_[:12]})
@@ -335,17 +361,39 @@ def execute(schedule, ctx):
                 m.__dict__['_' + nm][:] = arr
 
 
-def _loop(m, positions, opts, intr, how, spec, span):
+def _loop(m, positions, opts, intr, how, spec, span, judge=None):
     ctl = probes.get_ctl(m)
     ctl.budget = intr['seam'] if intr else None
     flags = []
     out = None
     fail = None
     for t in positions:
+        if judge is not None:
+            # "the failing period carries the status its policy prescribes": each period of the reference loop is judged
+            # by the per-period state machine (tagged C05 here; C02/C06 own the single-period clauses)
+            ctx, endo, check, exo = judge
+            snap = ref_solver.snapshot(m)
+            n0 = len(ctl.log)
+            nr0 = len(ctl.raised)
+            o = _outcome(lambda: m.solve_t(t, **S.solver_kwargs(opts)))
+            if o['kind'] != 'interrupt':
+                call = {
+                    'opts': opts, 'n': len(span), 't': t, 'endo': endo, 'check': check, 'exo': exo, 'snap': snap,
+                    'post': ref_solver.snapshot(m), 'log': ctl.log[n0:], 'raised': ctl.raised[nr0:],
+                    'outcome': {'kind': 'return', 'value': o['value']} if o['kind'] == 'return' else {'kind': 'raise', 'exc': o['exc']},
+                    'scripted': spec['kind'] == 'scripted', 'feasible': True, 'np_err': ctx.np_err,
+                }
+                ref_solver.judge_single(call, lambda sig, ok, detail=None: ctx.check('C05', 'period-policy/' + sig, ok, detail), None)
+            if o['kind'] != 'return':
+                out = o
+                fail = t
+                break
+            flags.append(bool(o['value']))
+            continue
         if how == 'solve_t':
-            o = _outcome(lambda: m.solve_t(t, **opts))
+            o = _outcome(lambda: m.solve_t(t, **S.solver_kwargs(opts)))
         else:
-            o = _outcome(lambda: m.solve_period(span[t], **opts))
+            o = _outcome(lambda: m.solve_period(span[t], **S.solver_kwargs(opts)))
         if o['kind'] != 'return':
             out = o
             fail = t
